@@ -217,3 +217,21 @@ check('C11',
       'c_problems and make the class not loadable). The JSON text layer and float repr round trip are trusted. A value-level codec '
       'theorem is not part of this check.',
       'Coq proof over a model generated from the source (ast translator) + round-trip oracle on the implementation', 'DESIGN.md 5 C11')
+check('C06',
+      'PARTIAL proof. Proved for any number of steps and any durations (Props/C06.v, rows as Plant.v emits them, row shapes proved): the '
+      'on/off patterns admitting start flags that satisfy the start and run-time rows are EXACTLY those in which every run begun inside '
+      'the horizon lasts at least the minimum run time or reaches the end; the down-time rows hold EXACTLY for the patterns in which '
+      'every stop (incl. a stop in the first step of a unit declared running) lasts the minimum down time or reaches the end; off => '
+      'zero output and on => min <= power + factor x heat <= max; the output changes by at most the ramp between steps and in the '
+      'first step relative to the last dispatch; start flags dominate the transitions and the flags set exactly at the transitions '
+      'keep every row satisfied (so positive start costs / fuel charge exactly the transitions); heat <= share x power; the fuel '
+      'factors give output / efficiency + running + start consumption. The model builder Plant.v (Plant and CHPAsset with on / start '
+      'binaries, capacity, ramp, start, run-time, down-time, heat rows, initial-state bounds, fuel mapping; no start / shutdown ramp '
+      'profiles) is compared with the implementation; on the implementation every optimised plant portfolio is checked from x '
+      '(capacity, ramps incl. first step, start flags, run lengths incl. declared initial state, heat share, fuel drawn, cash flow), '
+      'and for T <= 6 all 2^T on/off patterns are pinned through bounds and their feasibility compared with the run-length '
+      'specification.',
+      TB + 'Not proved and not modelled: start / shutdown ramp PROFILES (their rows are exercised by the repository tests only); the '
+      'link between the abstract row inequalities and the list of rows Plant.v emits is by the row-shape lemmas and the correspondence '
+      'run, not one theorem about the builder. Durations are converted to steps by the documented rounding up (harness side).',
+      'Coq proof (run-length characterisation of the rows, partial) + differential correspondence + pattern enumeration on the implementation', 'DESIGN.md 5 C06')
